@@ -26,6 +26,7 @@ var hostileDescs = []string{
 	"a", "é", `"`, `say "hi"`, `\`, `back\slash`, `"""`, `a """ b`, `\"""`, " lead", "trail ", "\n\nx\n\n", "  a\n    b\n  c", "line1\n line2", "tab\there",
 	"😀", " ", "   ", "ends with quote\"", `""`, `""""`, "#not comment", "\ttabfirst", "a\n\n\nb", "x\n  \ny", " \n ", "\nleading newline", "trailing newline\n",
 	"  indented first\nsecond", " nbsp", "​", "{}[]()$@!|&=:", "...", "\\u0041", "\\n", "a\\", "q\"\"", "multi\n\"\"\"\nline",
+	`two """ and """ more`, `"""""" twice in a row`, "first \"\"\" line\nsecond \"\"\" line",
 	"  first\n\n  second", "\tone\n\n\ttwo", "  a\n\n\n  b\n   c", "\U000F0000 private use", "tag \U000E0001 char", "\u00ad soft hyphen", "\u200b\u001f\u000b",
 }
 var plainDescs = []string{"a description", "x", "multi\nline", "Ends.", "The thing"}
@@ -373,6 +374,10 @@ func (g *sgen) outputType() *m.Type {
 		base = g.unions[r.Intn(len(g.unions))]
 	default:
 		base = g.objects[r.Intn(len(g.objects))]
+	}
+	if r.Chance(1, 40) {
+		// the introspection types are ordinary output types: a user field may return them
+		base = r.Pick("__Type", "__TypeKind", "__Schema", "__DirectiveLocation", "__Field")
 	}
 	return wrap(r, base, false)
 }
